@@ -1,4 +1,5 @@
 """C07 — one reply per query, its own (addressing and shape clauses only)."""
+import re
 from ..util import *
 from ..prov import strip, norm, show, subterms
 from ..cfg import cfg_of
@@ -26,6 +27,85 @@ def run(ctx):
     _r7(ctx)
     _r8(ctx)
     _r9(ctx)
+    _r10(ctx)
+    _r11(ctx)
+
+
+def _r11(ctx):
+    """no task waits for a lock it may still hold: between two acquisitions of the same lock in one function, of which at least one
+    is exclusive, every path releases a guard (a drop of a guard-typed local) — tokio's RwLock is not re-entrant and prefers
+    writers, so `let g = l.read().await; ... l.write().await` never completes and every later user of the lock queues behind it"""
+    P = ctx.P
+    ACQ = {"read": False, "write": True, "lock": True, "blocking_read": False, "blocking_write": True}
+    n = 0
+    for b in P.bodies.values():
+        if not (b.id.startswith("erbium::dns") or b.id.startswith("erbium::dhcp") or b.id.startswith("erbium::radv")):
+            continue
+        acq = []
+        T = None
+        for bb, tm in b.calls():
+            nme = callee_name(tm) or ""
+            last = nme.rsplit("::", 1)[-1]
+            if last in ACQ and ("sync::RwLock" in nme or "sync::Mutex" in nme) and tm["args"]:
+                T = T or terms(P, b)
+                acq.append((bb, tm, last, norm(T.call_args(bb)[0])))
+        if len(acq) < 2:
+            continue
+        cfg = cfg_of(b)
+        rel = set()
+        # a guard that was moved out of a local (`cookies = move result`) is not released by the (no-op) drop of that local
+        moved = {}
+        for mb, mi, mst in b.stmts():
+            rv = mst.get("rv")
+            if rv and rv["k"] == "use" and "m" in rv["op"] and len(rv["op"]["m"]) == 1:
+                moved.setdefault(rv["op"]["m"][0], []).append(mb)
+        for bb, tm in b.terms():
+            if tm["k"] == "drop" and len(tm["place"]) == 1 and any(cfg.dominates(mb, bb) for mb in moved.get(tm["place"][0], ())):
+                continue
+            if tm["k"] == "drop" and len(tm["place"]) == 1 and re.match(r"^[\w:]*(RwLockReadGuard|RwLockWriteGuard|OwnedRwLock\w+Guard|MutexGuard|OwnedMutexGuard)<", b.locals[tm["place"][0]]["ty"]):
+                rel.add(bb)
+        for ba, ta, la, xa in acq:
+            for bb2, tb, lb, xb in acq:
+                if ba == bb2 or xa != xb or not (ACQ[la] or ACQ[lb]):
+                    continue
+                n += 1
+                reach = cfg.reachable_from(ba, blocked=tuple(rel))
+                held = bb2 in reach and ba not in rel
+                tag = b.id.split("::")[-2] if b.id.endswith("}") else b.id.split("::")[-1]
+                ctx.saw(b)
+                ctx.check(not held, "R11", "lock-not-reacquired-while-held:%s:%s-then-%s" % (tag, la, lb), ctx.where(b, tb["sp"]),
+                          "%s() at %s can be reached from %s() on the same lock without a guard being dropped in between" % (lb, P.rel(tb["sp"]), la))
+    ctx.ok("R11", "pairs of acquisitions of one lock examined", "", "%d" % n)
+
+
+def _r10(ctx):
+    """the learnt upstream retry timeout stays within [MIN_DNS_TIMEOUT, MAX_DNS_TIMEOUT]: every value stored into the shared
+    timeout is a clamp to those two constants (the bounded time to SERVFAIL is a small multiple of it)"""
+    P = ctx.P
+    from .c10 import _clamp_shape
+    n = 0
+    for b in P.bodies.values():
+        if "dns::outquery" not in b.id:
+            continue
+        T = None
+        for bb, idx, st in b.stmts():
+            pl = st["p"]
+            if len(pl) != 2 or pl[1] != "*" or "rv" not in st or b.locals[pl[0]]["ty"].replace(" ", "") != "&mutstd::time::Duration":
+                continue
+            T = T or terms(P, b)
+            v = norm(T.rvalue(st["rv"], bb, idx))
+            n += 1
+            ctx.saw(b)
+            cl = _clamp_shape(v)
+            good = False
+            if cl is not None:
+                x, lo, up = cl
+                good = "MIN_DNS_TIMEOUT" in show(norm(lo)) and "MAX_DNS_TIMEOUT" in show(norm(up))
+            ctx.check(good, "R10", "shared-timeout-stored-clamped", ctx.where(b, st["sp"]),
+                      "the value stored into the shared retry timeout must be clamped to [MIN_DNS_TIMEOUT, MAX_DNS_TIMEOUT] as its outermost "
+                      "operation (is %s): one slow reply otherwise inflates every later query's retry schedule" % show(v)[:140])
+    if ctx.config in ("default", "dns"):
+        ctx.floor("R10", "stores into the shared retry timeout", n, 2)
 
 
 def _r8(ctx):
